@@ -1,7 +1,7 @@
 """C14 parts B-D - primality tests, prime generation, legacy Crypto.Util.number helpers.
 
 Primality (Crypto.Math.Primality.test_probable_prime / miller_rabin_test / lucas_test and the legacy
-Crypto.Util.number.isPrime) is judged against exact primality (sieve below 2^17, mc.ref.nt.is_prime
+Crypto.Util.number.isPrime) is judged against exact primality (sieve below 2^18, mc.ref.nt.is_prime
 above) with the property's one-sided demands:
 
   * a prime is never declared composite (any bases);
@@ -28,12 +28,13 @@ from ._c14_int import CURVE_PRIMES
 
 SMALLP = nt.sieve(1000)
 CFG = "default"         # set by _c14_sub in a child process running under another integer back-end
-_SIEVE_LIMIT = 1 << 17
+_SIEVE_LIMIT = 1 << 18
 _FLAGS = None
+_TRUTH = {}
 
 
 def truth(n):
-    """exact primality (sieve below 2^17; nt.is_prime: exact below 3.3e24, BPSW + 13 bases above)"""
+    """exact primality (sieve below 2^18; nt.is_prime: exact below 3.3e24, BPSW + 13 bases above)"""
     global _FLAGS
     if n < 2:
         return False
@@ -41,7 +42,14 @@ def truth(n):
         if _FLAGS is None:
             _FLAGS = nt._sieve_flags(_SIEVE_LIMIT)
         return bool(_FLAGS[n])
-    return nt.is_prime(n)
+    if n.bit_length() <= 128:
+        return nt.is_prime(n)
+    r = _TRUTH.get(n)                   # (the reference needs seconds for a candidate of several thousand bits)
+    if r is None:
+        if len(_TRUTH) > 256:
+            _TRUTH.clear()
+        r = _TRUTH[n] = nt.is_prime(n)
+    return r
 
 
 # ---------------------------------------------------------------------------
@@ -127,7 +135,7 @@ def liars(n, limit):
         if len(_LIARS) > 20000:
             _LIARS.clear()
         r = []
-        for b in range(2, min(n - 2, limit) + 1):
+        for b in range(2, (min(n - 2, limit) if n % 2 else 0) + 1):         # (an even n has no strong liars)
             if nt.strong_probable_prime(n, b):
                 r.append(b)
                 if n - b > b and n - b <= n - 2:
@@ -165,6 +173,7 @@ def strategy(n, strat, hi, cyclic=True, liar_limit=300):
 # ---------------------------------------------------------------------------
 # one primality verdict
 # ---------------------------------------------------------------------------
+ISPRIME_FPP = {1: 0.3, 50: 1e-30}      # isPrime(false_positive_prob=...): 1 and 50 Rabin-Miller rounds (default 1e-6: 10)
 FN_NAMES = {"tpp": "Primality.test_probable_prime", "mr": "Primality.miller_rabin_test",
             "lucas": "Primality.lucas_test", "isPrime": "number.isPrime"}
 
@@ -182,6 +191,8 @@ def _call(fn, n, iters, tape, wrap=False):
     if fn == "lucas":
         return Primality.lucas_test(n)
     if fn == "isPrime":
+        if iters:
+            return number.isPrime(n, false_positive_prob=ISPRIME_FPP[iters], randfunc=tape)
         return number.isPrime(n, randfunc=tape)
     raise ValueError(fn)
 
@@ -192,6 +203,8 @@ def prim_case(fn, n, strat, iters, acc, family="", liar_limit=300, wrap=False):
         return []                       # the legacy test never touches the Integer classes: parent process only
     acc.count("evaluations")
     acc.count("prim_cases")
+    if fn == "isPrime" and iters:
+        acc.count("prim_isprime_fpp")
     if fn == "lucas":
         tape = None
     elif fn == "isPrime":
@@ -222,7 +235,8 @@ def prim_case(fn, n, strat, iters, acc, family="", liar_limit=300, wrap=False):
     acc.seen("prim_classes", (fn, cls, pp, family.split(" ")[0] or "range", strat if isinstance(strat, str) else "explicit",
                               min(len(used), 3) if used is not None else -1, wrap, CFG))
     what0 = "%s%s(%s%s)%s" % ("[integer back-end configuration %s] " % CFG if CFG != "default" else "", name,
-                              ("Integer(%s)" if wrap else "%s") % short(n), ", %d" % iters if fn == "mr" else "",
+                              ("Integer(%s)" if wrap else "%s") % short(n), ", %d" % iters if fn == "mr" else
+                              (", false_positive_prob=%r" % ISPRIME_FPP[iters] if fn == "isPrime" and iters else ""),
                               " with Miller-Rabin bases %s" % short(used[:6], 30) if used else "")
     if fn == "tpp" and used and not prime and n > 541 and any(n % q == 0 for q in SMALLP[:100]):
         acc.observe("Primality.test_probable_prime draws Miller-Rabin bases for candidates divisible by one of the first "
@@ -301,7 +315,9 @@ def _sz(n):
 def _script(fn, n, iters, used):
     call = {"tpp": "Primality.test_probable_prime(n, randfunc=tape)",
             "mr": "Primality.miller_rabin_test(n, %d, randfunc=tape)" % iters,
-            "lucas": "Primality.lucas_test(n)", "isPrime": "number.isPrime(n, randfunc=tape)"}[fn]
+            "lucas": "Primality.lucas_test(n)",
+            "isPrime": "number.isPrime(n, %srandfunc=tape)" % ("false_positive_prob=%r, " % ISPRIME_FPP[iters]
+                                                               if fn == "isPrime" and iters else "")}[fn]
     how = {"default": "", "nogmp": "# run with the environment variable PYCRYPTODOME_DISABLE_GMP=1\n",
            "native": "import sys\nsys.modules['Crypto.Math._IntegerGMP'] = sys.modules['Crypto.Math._IntegerCustom'] = None"
                      "   # pure-Python back-end\n"}[CFG]
@@ -335,10 +351,60 @@ def _chernick_from(k0, count, step_limit=400000):
 
 FAMILIES = ("carmichael", "chernick", "spsp2", "psi", "pq-spsp", "lucas-psp", "prime-squares", "close-primes",
             "small-factor-times-big-prime")
+# thorough only: EVERY perfect square k^2 (k prime or not) below 2^24; composites (products of two adjacent primes) and
+# primes of exactly B-1, B, B+1 bits around every boundary B of test_probable_prime's table of Miller-Rabin iteration
+# counts (above the last boundary the table lookup fails over to 1 iteration)
+FAMILIES_DEEP = ("squares", "mr-table")
+MR_TABLE = (220, 280, 390, 512, 620, 740, 890, 1200, 1700, 3700)
+SQUARES_TOP = 4096
+LIAR_SEARCH_BITS = 600          # candidates above this size get no liar tape (the reference search would find none)
+# next_prime(2^(s-1)) - 2^(s-1) for the three sizes around the last table boundary (found once with mc.ref.nt.next_prime,
+# 30 s each; every run re-certifies the primes with mc.ref.nt.is_prime)
+_NEXT_PRIME_OFFSET = {3699: 2485, 3700: 3299, 3701: 1443}
+
+
+def families(quick):
+    return FAMILIES if quick else FAMILIES + FAMILIES_DEEP
+
+
+def family_shard_names(quick):
+    """shard names, heaviest first (the mr-table family is one shard per boundary)"""
+    names = ["spsp2", "lucas-psp", "pq-spsp", "carmichael", "chernick", "close-primes", "prime-squares", "psi",
+             "small-factor-times-big-prime"]
+    if not quick:
+        names = ["mr-table/%d" % b for b in sorted(MR_TABLE, reverse=True)] + ["squares/%d" % i for i in range(4)] + names
+    return names
+
+
+def exact_size_prime(s):
+    """a prime of exactly s bits: the first one after 2^(s-1)"""
+    if s in _NEXT_PRIME_OFFSET:
+        return 2 ** (s - 1) + _NEXT_PRIME_OFFSET[s]
+    return nt.next_prime(2 ** (s - 1))
+
+
+def exact_size_semiprime(s):
+    """p * next_prime(p) of exactly s bits, p the first prime above sqrt(2^(s-1))"""
+    p = nt.next_prime(math.isqrt(2 ** (s - 1)))
+    q = nt.next_prime(p)
+    return p, q
 
 
 def family(name, quick):
     """-> list of (n, note)"""
+    if name.startswith("mr-table/"):
+        out = []
+        b = int(name.split("/")[1])
+        for s_ in (b - 1, b, b + 1):
+            p, q = exact_size_semiprime(s_)
+            if (p * q).bit_length() != s_:
+                raise ValueError("mr-table: semiprime of %d bits expected" % s_)
+            out.append((p * q, "%d bits = p(p+%d)" % (s_, q - p)))
+            out.append((p * p, "%d bits = p^2" % (p * p).bit_length()))
+        return out
+    if name.startswith("squares/"):
+        i = int(name.split("/")[1])
+        return [(k * k, "k^2") for k in range(2, SQUARES_TOP) if k % 4 == i]
     if name == "carmichael":
         return [(n, "") for n in nt.carmichael_numbers(10 ** 6 if quick else 10 ** 8)]
     if name == "chernick":
@@ -395,26 +461,50 @@ def family(name, quick):
     raise ValueError(name)
 
 
-def big_primes(quick):
-    out = [(p, n) for n, p in CURVE_PRIMES]
+def big_prime_specs(quick):
+    """-> list of (kind, argument, note); resolved by big_prime() (the searches are done by the shard that needs them)"""
+    out = [("value", p, n) for n, p in CURVE_PRIMES]
     for e in (61, 89, 107, 127, 607) + (() if quick else (1279, 2203)):
-        out.append((2 ** e - 1, "M%d" % e))
+        out.append(("value", 2 ** e - 1, "M%d" % e))
     for k in (17, 31, 32, 63, 64, 65, 127, 128, 255, 256) + ((512,) if quick else (511, 512, 1023, 1024)):
-        out.append((nt.next_prime(2 ** k), "next_prime(2^%d)" % k))
+        out.append(("next", k, "next_prime(2^%d)" % k))
     for k in (20, 64):
-        x = 2 ** k - 1
-        while not nt.is_prime(x):
-            x -= 2
-        out.append((x, "prev_prime(2^%d)" % k))
+        out.append(("prev", k, "prev_prime(2^%d)" % k))
+    if not quick:
+        for e in (2281, 3217, 4253, 4423):
+            out.append(("value", 2 ** e - 1, "M%d" % e))
+        for b in MR_TABLE:
+            for s_ in (b - 1, b, b + 1):
+                out.append(("exact", s_, "mr-table %d bits" % s_))
     return out
 
 
+def big_prime(kind, arg):
+    if kind == "value":
+        return arg
+    if kind == "next":
+        return nt.next_prime(2 ** arg)
+    if kind == "exact":
+        return exact_size_prime(arg)
+    x = 2 ** arg - 1
+    while not nt.is_prime(x):
+        x -= 2
+    return x
+
+
+PRIME_SHARDS = 12
+
+
+RANGE_TOP = 2 ** 18             # thorough: every integer below it (default back-end; the child processes stop at 2^17)
+ALLBASES_TOP = 3072             # thorough: every odd n below it x every base (default back-end; children: 1024)
+GEN_CHILD_BATCHES = 16
 MR_GRID = ((1, "small"), (2, "small"), (4, "small"), (10, "seed0"), (5, "liar"), (3, "top"))
 TPP_STRATS = ("small", "seed0", "seed1", "liar", "top")
 
 
 def family_worker(name, quick, acc):
     members = family(name, quick)
+    name = name.split("/")[0]
     for n, note in members:
         if nt.is_prime(n) or n < 4:
             acc.error("family %s produced the non-composite %d" % (name, n))
@@ -422,16 +512,27 @@ def family_worker(name, quick, acc):
         acc.count("family_members")
         acc.seen("families", name)
         fam = "%s %s" % (name, note) if note else name
+        big = n.bit_length() > LIAR_SEARCH_BITS
+        if name == "mr-table":
+            acc.seen("mr_table_sizes", ("composite", n.bit_length()))
         for st in TPP_STRATS:
-            prim_case("tpp", n, st, 0, acc, fam, 3000)
+            if not (big and st == "liar"):
+                prim_case("tpp", n, st, 0, acc, fam, 3000)
         for it, st in MR_GRID:
-            prim_case("mr", n, st, it, acc, fam, 3000)
+            if not (big and st == "liar"):
+                prim_case("mr", n, st, it, acc, fam, 3000)
         prim_case("lucas", n, None, 0, acc, fam)
         prim_case("tpp", n, "seed0", 0, acc, fam, 3000, wrap=True)
         prim_case("mr", n, "small", 2, acc, fam, 3000, wrap=True)
         prim_case("lucas", n, None, 0, acc, fam, wrap=True)
         for st in ("small", "seed0", "liar"):
-            prim_case("isPrime", n, st, 0, acc, fam, 3000)
+            if not (big and st == "liar"):
+                prim_case("isPrime", n, st, 0, acc, fam, 3000)
+        if not quick:
+            # the legacy test's false_positive_prob (1 and 50 rounds instead of 10)
+            for it, st in ((1, "small"), (1, "liar"), (50, "seed0"), (50, "liar")):
+                if not (big and st == "liar"):
+                    prim_case("isPrime", n, st, it, acc, fam, 3000)
         if name == "psi":
             k = int(note.split("_")[1])
             last = max(kk for kk, v in nt.PSI.items() if v == n)
@@ -446,11 +547,16 @@ def family_worker(name, quick, acc):
                 "first": members[0][0] if members else None, "last": members[-1][0] if members else None})
 
 
-def primes_worker(quick, acc):
-    for p, note in big_primes(quick):
-        if not nt.is_prime(p):
+def primes_worker(quick, acc, part=0, parts=1):
+    specs = sorted(big_prime_specs(quick), key=lambda sp: -(sp[1] if sp[0] != "value" else sp[1].bit_length())) \
+        if parts > 1 else big_prime_specs(quick)
+    for kind, arg, note in specs[part::parts]:
+        p = big_prime(kind, arg)
+        if not nt.is_prime(p) or (kind == "exact" and p.bit_length() != arg):
             acc.error("big_primes produced the non-prime %s" % note)
             continue
+        if kind == "exact":
+            acc.seen("mr_table_sizes", ("prime", arg))
         for st in ("small", "seed0", "top"):
             prim_case("tpp", p, st, 0, acc, "prime " + note)
             prim_case("isPrime", p, st, 0, acc, "prime " + note)
@@ -459,7 +565,10 @@ def primes_worker(quick, acc):
         prim_case("lucas", p, None, 0, acc, "prime " + note)
         prim_case("tpp", p, "seed1", 0, acc, "prime " + note, wrap=True)
         prim_case("lucas", p, None, 0, acc, "prime " + note, wrap=True)
-    acc.sample({"part": "primality-big-primes", "count": len(big_primes(quick))})
+        if not quick:
+            for it, st in ((1, "small"), (50, "seed0"), (50, "top")):
+                prim_case("isPrime", p, st, it, acc, "prime " + note)
+    acc.sample({"part": "primality-big-primes", "count": len(specs[part::parts])})
 
 
 def range_worker(lo, hi, acc):
@@ -569,32 +678,46 @@ def gen_case(fn, bits, label, acc, extra=None):
     return keys
 
 
-GEN_BITS_FULL = list(range(160, 193)) + [255, 256, 257, 511, 512, 513]
+# thorough: EVERY size 160..400 (crossing the boundaries 220, 280, 390 of the Miller-Rabin iteration table) and the three
+# sizes around each further boundary and around 1024 / 2048
+GEN_BITS_FULL = list(range(160, 401)) + [b + d for b in (512, 620, 740, 890, 1024, 1200, 1700) for d in (-1, 0, 1)] + [2048]
+GEN_TAPES_FULL = 6              # tapes per size up to 400 bits
+GEN_TAPES_BIG = 2               # ... up to 1201 bits; one tape above
 GEN_BITS_QUICK = [160, 161, 163, 167, 168, 169, 176, 184, 191, 192, 255, 256, 257, 512]
+
+
+GEN_FILTER_BITS = (160, 161, 200, 219, 220, 256, 280, 384, 512)
+GEN_SAFE_BITS = (161, 162, 163, 164, 165, 166, 167, 168, 192)
+GETPRIME_BITS = list(range(2, 321)) + [511, 512, 513, 1023, 1024, 1025, 2048]
+# getStrongPrime: every documented size 512..1024 x (no e, e = 3, 65537, the even 65536), larger sizes with e = 65537,
+# sizes it must refuse
+STRONG_GRID = tuple((b, e) for b in (512, 640, 768, 896, 1024) for e in (0, 3, 65537, 65536)) + \
+    ((1152, 65537), (1536, 65537), (2048, 65537), (384, 0), (520, 0), (576, 65537))
 
 
 def gen_shards(quick):
     sh = []
     bits = GEN_BITS_QUICK if quick else GEN_BITS_FULL
-    tapes = 1 if quick else 4
     for b in bits:
-        for t in range(tapes):
+        for t in range(1 if quick else (GEN_TAPES_FULL if b <= 400 else GEN_TAPES_BIG if b <= 1201 else 1)):
             sh.append(("gen", "generate_probable_prime", b, "c14gen%d" % t, None))
-    for b in (0, 1, 8, 64, 159):
+    for b in (0, 1, 8, 64, 159) if quick else (0, 1, 8, 64, 128, 158, 159, -1):
         sh.append(("gen", "generate_probable_prime", b, "c14gen0", None))
-    for b in (160, 256) if quick else (160, 161, 200, 256, 384):
+    for b in (160, 256) if quick else GEN_FILTER_BITS:
         sh.append(("gen", "generate_probable_prime/filter", b, "c14genf", None))
     if not quick:
-        for b in (161, 168, 192):
+        for b in GEN_SAFE_BITS:
             for t in range(2):
                 sh.append(("gen", "generate_probable_safe_prime", b, "c14safe%d" % t, None))
-    for b in list(range(2, 33 if quick else 65)) + [127, 128, 129, 255, 256, 257] + ([] if quick else [511, 512, 513, 1024]):
+        for b in (0, 8, 160):
+            sh.append(("gen", "generate_probable_safe_prime", b, "c14safe0", None))
+    for b in (list(range(2, 33)) + [127, 128, 129, 255, 256, 257]) if quick else GETPRIME_BITS:
         for t in range(1 if quick else 2):
             sh.append(("gen", "getPrime", b, "c14gp%d" % t, None))
     for b in (1, 0, -5):
         sh.append(("gen", "getPrime", b, "c14gp0", None))
     if not quick:
-        for b, e in ((512, 0), (512, 65537), (640, 3), (768, 65536)):
+        for b, e in STRONG_GRID:
             sh.append(("gen", "getStrongPrime", b, "c14sp", e))
     return sh
 
@@ -648,6 +771,10 @@ def legacy_case(fn, a, b, acc):
     return [key]
 
 
+LEGACY_BOX = (range(-30, 61), range(-100, 201))         # complete box of the legacy helpers: (quick, thorough)
+LEGACY_BOX_SHARDS = 8
+
+
 def legacy_worker(sh, acc):
     from . import _c14_int as A
     quick = sh[-1]
@@ -659,20 +786,36 @@ def legacy_worker(sh, acc):
                 legacy_case(fn, a, b, acc)
         legacy_case("size", a, 0, acc)
     else:
-        for a in range(-30, 61):
-            for b in range(-30, 61):
+        box = LEGACY_BOX[0 if quick else 1]
+        part, parts = (sh[2], sh[3]) if len(sh) > 3 else (0, 1)
+        for a in box:
+            if (a - box[0]) % parts != part:
+                continue
+            for b in box:
                 for fn in ("ceil_div", "GCD", "inverse"):
                     legacy_case(fn, a, b, acc)
             legacy_case("size", a, 0, acc)
-        for a in range(0, 2 ** 12):
-            legacy_case("size", a, 0, acc)
+        for a in range(0, 2 ** 12 if quick else 2 ** 16):
+            if a % parts == part:
+                legacy_case("size", a, 0, acc)
+        if not quick:
+            # inverse / GCD / ceil_div against moduli of every word count and every limb pattern
+            from . import _c14_int as A
+            for w in (A.WORDS_FULL + A.WORDS_BIG)[part::parts]:
+                for m in A.word_moduli(w, "c14leg") + A.word_moduli_extra(w, "c14legx"):
+                    for a in (2, 3, m - 1, m - 2, m + 2, -5, (m + 1) // 2, seeded_int("c14lega%d" % w, 64 * w + 8)):
+                        for fn in ("ceil_div", "GCD", "inverse"):
+                            legacy_case(fn, a, m, acc)
+                            legacy_case(fn, m, a, acc)
     acc.sample({"part": "legacy", "shard": [str(s) for s in sh[1:-1]]})
 
 
 def child_shards(quick):
     """the shards repeated in child processes under the other two integer back-ends -> list of batches"""
-    fam = [("prim", "family", f, quick) for f in FAMILIES]
-    batches = [[s] for s in fam] + [[("prim", "primes", quick)]]
+    fam = [("prim", "family", f, quick) for f in family_shard_names(quick)]
+    batches = [[s] for s in fam]
+    batches += [[("prim", "primes", quick)]] if quick else [[("prim", "primes", i, PRIME_SHARDS, quick)]
+                                                             for i in range(PRIME_SHARDS)]
     top = 2 ** 12 if quick else 2 ** 17
     step = 256 if quick else 1024
     rng = [("prim", "range", a, min(a + step, top), quick) for a in range(0, top, step)]
@@ -683,19 +826,24 @@ def child_shards(quick):
     gen = [s for s in gen_shards(quick) if s[1].startswith("generate_")]
     if quick:
         gen = [s for s in gen if s[2] in (159, 160, 192, 256)]
-    batches += [gen[i::4] for i in range(4) if gen[i::4]]
+        batches += [gen[i::4] for i in range(4) if gen[i::4]]
+    else:
+        gen.sort(key=lambda s: -s[2])           # interleaved by size: batches of equal cost
+        batches = [gen[i::GEN_CHILD_BATCHES] for i in range(GEN_CHILD_BATCHES)] + batches
     return batches
 
 
 def prim_shards(quick):
-    top = 2 ** 13 if quick else 2 ** 17
+    top = 2 ** 13 if quick else RANGE_TOP
     step = 256 if quick else 1024
-    sh = [("prim", "family", f) for f in ("spsp2", "lucas-psp", "pq-spsp", "carmichael", "chernick", "close-primes",
-                                          "prime-squares", "psi", "small-factor-times-big-prime")]
-    sh.append(("prim", "primes"))
+    sh = [("prim", "family", f) for f in family_shard_names(quick)]
+    sh += [("prim", "primes")] if quick else [("prim", "primes", i, PRIME_SHARDS) for i in range(PRIME_SHARDS)]
+    ab = 256 if quick else ALLBASES_TOP
+    if not quick:
+        sh += [("prim", "allbases", a, a + 32) for a in range(ab - 32, -1, -32)]        # heaviest first
     sh += [("prim", "range", a, min(a + step, top)) for a in range(0, top, step)]
-    ab = 256 if quick else 2048
-    sh += [("prim", "allbases", a, a + 32) for a in range(0, ab, 32)]
+    if quick:
+        sh += [("prim", "allbases", a, a + 32) for a in range(0, ab, 32)]
     return [s + (quick,) for s in sh]
 
 
@@ -705,7 +853,10 @@ def prim_worker(sh, acc):
     if kind == "family":
         family_worker(sh[2], quick, acc)
     elif kind == "primes":
-        primes_worker(quick, acc)
+        if len(sh) > 3:
+            primes_worker(quick, acc, sh[2], sh[3])
+        else:
+            primes_worker(quick, acc)
     elif kind == "range":
         range_worker(sh[2], sh[3], acc)
     elif kind == "allbases":
